@@ -118,6 +118,16 @@ func rdfDrawStatement(t *simrt.Tape) *rdf.Statement {
 	return s
 }
 
+// rdfInvented classifies an unstable accepted statement: the known parser
+// defect invents a graph label out of the tail of a blank-node object that
+// contains "_:" or ends in a label-like suffix.
+func rdfInvented(p *rdf.Statement) string {
+	if p != nil && p.Label.Value != "" && strings.HasPrefix(p.Object.Value, "_:") && strings.HasSuffix(p.Object.Value, strings.TrimPrefix(p.Label.Value, "_:")) {
+		return "/label-invented-from-blank-object"
+	}
+	return "/other"
+}
+
 func rdfSame(a, b *rdf.Statement) bool {
 	return a.Subject.Value == b.Subject.Value && a.Predicate.Value == b.Predicate.Value && a.Object.Value == b.Object.Value && a.Label.Value == b.Label.Value
 }
@@ -248,7 +258,7 @@ func runNQuads(c *Ctx) *Violation {
 				return viol("nquads/ParseNQuad/roundtrip-rejected", "ParseNQuad(s.String()) fails: %v\nline: %q", err, line)
 			}
 			if !rdfSame(p, s) {
-				return viol("nquads/ParseNQuad/roundtrip-"+rdfFirstDiff(p, s), "ParseNQuad(s.String()) = %v, s = %v\nline: %q", rdfShow(p), rdfShow(s), line)
+				return viol("nquads/ParseNQuad/roundtrip-"+rdfFirstDiff(p, s)+rdfInvented(p), "ParseNQuad(s.String()) = %v, s = %v\nline: %q", rdfShow(p), rdfShow(s), line)
 			}
 			if p.Subject.UID != 0 || p.Predicate.UID != 0 || p.Object.UID != 0 || p.Label.UID != 0 {
 				return viol("nquads/ParseNQuad/uid", "ParseNQuad returned non-zero UIDs for %q", line)
@@ -305,7 +315,7 @@ func runNQuads(c *Ctx) *Violation {
 				return viol("nquads/ParseNQuad/roundtrip-rejected", "statement of constructed terms %q: ParseNQuad fails: %v", s.String(), err)
 			}
 			if !rdfSame(p, s) {
-				return viol("nquads/ParseNQuad/roundtrip-"+rdfFirstDiff(p, s), "statement of constructed terms %q: ParseNQuad = %v", s.String(), rdfShow(p))
+				return viol("nquads/ParseNQuad/roundtrip-"+rdfFirstDiff(p, s)+rdfInvented(p), "statement of constructed terms %q: ParseNQuad = %v", s.String(), rdfShow(p))
 			}
 			stmts = append(stmts, s)
 			return nil
@@ -528,7 +538,7 @@ func runNQuads(c *Ctx) *Violation {
 					}
 					q, err := rdf.ParseNQuad(p.String())
 					if err != nil || !rdfSame(p, q) {
-						return viol("nquads/ParseNQuad/accepted-unstable", "ParseNQuad(%q) = %v, but its String() %q parses to %v, %v", cor, rdfShow(p), p.String(), rdfShow(q), err)
+						return viol("nquads/ParseNQuad/accepted-unstable"+rdfInvented(p), "ParseNQuad(%q) = %v, but its String() %q parses to %v, %v", cor, rdfShow(p), p.String(), rdfShow(q), err)
 					}
 					return nil
 				}); v != nil {
@@ -560,7 +570,7 @@ func runNQuads(c *Ctx) *Violation {
 					}
 					q, err := rdf.ParseNQuad(p.String())
 					if err != nil || !rdfSame(p, q) {
-						return viol("nquads/ParseNQuad/accepted-unstable", "ParseNQuad(%q) = %v, but its String() %q parses to %v, %v", cor, rdfShow(p), p.String(), rdfShow(q), err)
+						return viol("nquads/ParseNQuad/accepted-unstable"+rdfInvented(p), "ParseNQuad(%q) = %v, but its String() %q parses to %v, %v", cor, rdfShow(p), p.String(), rdfShow(q), err)
 					}
 					return nil
 				}); v != nil {
